@@ -168,7 +168,7 @@ def _do_job(job, fd, vtty, termios, fcntl, array) -> dict:
     backend = RealBackend(fd, scn.get("pred") or {"stop": 0, "raiseAt": 0})
     rec = vtty.Recorder(backend, codec, job.get("fault"), quiet=("termsize",) if op["name"] == "draw" else ())
     vtty.install(rec, fd)
-    vtty.reset_library(scn["enabled"], scn["swap"], scn["tmo"])
+    vtty.reset_library(scn["enabled"], scn["swap"], scn["tmo"], scn.get("term"))
     old_stdout = sys.stdout
     real_stream = None
     if op["name"] == "draw":
